@@ -73,7 +73,8 @@ func runC12(em *vEmitter, r *vRng) {
 				go func(u string) { defer wg.Done(); api.Authenticate(u, pw[u]) }(u)
 			}
 			wg.Wait()
-			// wait until nothing changes any more
+			// wait until the agent is idle (nothing queued, dispatcher free) and nothing changes any more
+			vAgentIdle(st, func() { api.List() }, 60*time.Second)
 			prev := ""
 			for i := 0; i < 100; i++ {
 				time.Sleep(100 * time.Millisecond)
@@ -155,7 +156,9 @@ func runC12(em *vEmitter, r *vRng) {
 					}()
 				}
 			}
-			// wait for a queued upgrade to be carried out
+			// wait for a queued upgrade to be carried out: first until the agent is idle again (an
+			// upgrade request is queued before the login is answered), then the old time bound
+			vAgentIdle(st, func() { api.List() }, 30*time.Second)
 			deadline := time.Now().Add(300 * time.Millisecond)
 			for time.Now().Before(deadline) {
 				if mode == "" || !ok || firstLinePid(userFile(ms.base, u)) == int(def) {
@@ -220,10 +223,18 @@ func runC12(em *vEmitter, r *vRng) {
 			p = "nope"
 		}
 		ok, _, _, _ := sst.GetInterface().Authenticate("alice", p)
-		deadline := time.Now().Add(800 * time.Millisecond)
+		// a right password: the master must end up with the upgraded record (generous bound, the loop
+		// ends as soon as it has); a wrong one: nothing may happen within the old bound
+		wait := 800 * time.Millisecond
+		if right {
+			wait = 15 * time.Second
+		}
+		deadline := time.Now().Add(wait)
 		for time.Now().Before(deadline) && firstLinePid(userFile(master.base, "alice")) != 2 {
 			time.Sleep(10 * time.Millisecond)
 		}
+		vAgentIdle(sst, func() { sst.GetInterface().List() }, 10*time.Second)
+		vAgentIdle(mst, func() { mst.GetInterface().List() }, 10*time.Second)
 		time.Sleep(20 * time.Millisecond)
 		srv.Close()
 		slaveAfter := slave.snapshotTerm()
